@@ -149,6 +149,27 @@ Check C17_license_name_refuted :
   ~ lookup_clause (mk_variant true true false true) /\ ~ agree_clause (mk_variant true true false true).
 Print Assumptions C17_license_name_refuted.
 
+(* Totality, every variant and every document (valid patterns or not): the lookups answer or
+   panic — never an error value, never out of fuel — find_license_by_name always answers, and
+   the lossy name().unwrap() (Panic 12) is never reached. *)
+Theorem C17_total : forall v d c path n,
+  ok_or_panic (ll_find_files v d path) /\ ok_or_panic (ll_find_license_for_file v d path) /\
+  (exists a, ll_find_license_by_name v d n = Ok a) /\
+  ok_or_panic (ly_find_files v c path) /\ ok_or_panic (ly_find_license_for_file v c path) /\
+  ly_find_license_for_file v c path <> Panic 12%N.
+Proof.
+  intros v d c path n.
+  split; [apply ll_find_files_shape|]. split; [apply ll_find_license_for_file_shape|].
+  split; [apply ll_find_license_by_name_ok|]. split; [apply ly_find_files_shape|].
+  apply ly_find_license_for_file_shape.
+Qed.
+Check C17_total : forall v d c path n,
+  ok_or_panic (ll_find_files v d path) /\ ok_or_panic (ll_find_license_for_file v d path) /\
+  (exists a, ll_find_license_by_name v d n = Ok a) /\
+  ok_or_panic (ly_find_files v c path) /\ ok_or_panic (ly_find_license_for_file v c path) /\
+  ly_find_license_for_file v c path <> Panic 12%N.
+Print Assumptions C17_total.
+
 (* ------------------------------------------------------------------ clause 3: the readers agree *)
 (* Whenever the lossy reader accepts the document, for every path: same outcome of find_files
    (the same paragraph position, the lossy paragraph being the conversion of the lossless one,
@@ -166,6 +187,27 @@ Check C17_readers_agree : forall d c, ly_of_doc fixed d = Ok c ->
     ll_find_license_for_file fixed d path = ly_find_license_for_file fixed c path /\
     forall n, ll_find_license_by_name fixed d n = Ok (ly_find_license_by_name c n).
 Print Assumptions C17_readers_agree.
+
+(* hence the lossy reader itself obeys "last match wins" and the licence rule, stated against
+   the document it was read from *)
+Theorem C17_lossy_lookup : forall d c path, ly_of_doc fixed d = Ok c -> doc_valid d ->
+  exists r ans,
+    is_last_such (fun p => para_matches p path) (files_paragraphs d) r /\
+    licence_answer d r ans /\
+    rmap (option_map fst) (ly_find_files fixed c path) = Ok (option_map fst r) /\
+    (forall j fp, ly_find_files fixed c path = Ok (Some (j, fp)) ->
+                  exists p, r = Some (j, p) /\ files_conv fixed p fp) /\
+    ly_find_license_for_file fixed c path = Ok ans.
+Proof. exact ly_lookup. Qed.
+Check C17_lossy_lookup : forall d c path, ly_of_doc fixed d = Ok c -> doc_valid d ->
+  exists r ans,
+    is_last_such (fun p => para_matches p path) (files_paragraphs d) r /\
+    licence_answer d r ans /\
+    rmap (option_map fst) (ly_find_files fixed c path) = Ok (option_map fst r) /\
+    (forall j fp, ly_find_files fixed c path = Ok (Some (j, fp)) ->
+                  exists p, r = Some (j, p) /\ files_conv fixed p fp) /\
+    ly_find_license_for_file fixed c path = Ok ans.
+Print Assumptions C17_lossy_lookup.
 
 (* ... and the lossy reader accepts every well-formed document (any variant) *)
 Theorem C17_wellformed_accepted : forall v d, wf_doc d -> exists c, ly_of_doc v d = Ok c.
@@ -229,6 +271,34 @@ Theorem C17_get_items : forall (p : tree) key, Deb822Parse.get p key = pget (ite
 Proof. exact get_items. Qed.
 Check C17_get_items : forall (p : tree) key, Deb822Parse.get p key = pget (items p) key.
 Print Assumptions C17_get_items.
+
+(* ------------------------------------------------------------------ recorded findings (not repaired) *)
+(* non-utf8-path: the path quantifier above is over sequences of Unicode scalar values.  A Unix
+   path that is not valid UTF-8 makes Path::to_str() None, and both matches() unwrap it. *)
+Theorem C17_nonutf8_path_witness :
+  (exists c, ly_of_doc fixed Wit.d_ws = Ok c /\ ly_find_files_nonutf8 c = Panic 13%N /\
+             ly_find_license_for_file_nonutf8 c = Panic 13%N) /\
+  ll_find_files_nonutf8 fixed Wit.d_ws = Panic 13%N /\
+  ll_find_license_for_file_nonutf8 fixed Wit.d_ws = Panic 13%N /\
+  ll_find_files_nonutf8 fixed [Wit.header; [(k_Files, []); (k_License, [88%N])]] = Ok None.
+Proof. exact nonutf8_path_witness. Qed.
+Check C17_nonutf8_path_witness :
+  (exists c, ly_of_doc fixed Wit.d_ws = Ok c /\ ly_find_files_nonutf8 c = Panic 13%N /\
+             ly_find_license_for_file_nonutf8 c = Panic 13%N) /\
+  ll_find_files_nonutf8 fixed Wit.d_ws = Panic 13%N /\
+  ll_find_license_for_file_nonutf8 fixed Wit.d_ws = Panic 13%N /\
+  ll_find_files_nonutf8 fixed [Wit.header; [(k_Files, []); (k_License, [88%N])]] = Ok None.
+Print Assumptions C17_nonutf8_path_witness.
+
+(* glob-regex-size-limit: the model takes Regex::new(..).unwrap() to succeed.  The regex crate
+   refuses patterns whose compiled form exceeds 10 MiB; measured on the real code, the first
+   failures are at 9855 wildcards and at 327675 literal characters.  The class recorded in
+   known_findings.jsonl is the decidable over-approximation below; every theorem above holds
+   for the model also inside the class (the model has no such limit), so what is *not* covered
+   by the theorems about the real code is exactly this predicate. *)
+Definition Known_glob_regex_size_limit (g : str) : Prop :=
+  (8192 <= N.of_nat (List.length (filter (fun c => (c =? 42) || (c =? 63)) g)) \/
+   262144 <= N.of_nat (List.length g))%N.
 
 (* ------------------------------------------------------------------ non-vacuity *)
 Module Examples.
